@@ -14,6 +14,7 @@ AsSet(seq) == {seq[j] : j \in 1..Len(seq)}      \* JSON has no sets
 Rule(o) ==
     LET n == o.note IN
     CASE o.kind \in {"call", "method", "ctor"}       -> {Verdict(CallOK(n.sig, n.args))}
+      [] o.kind = "result-use"                       -> {Verdict(n.ret # "" /\ InitOK(n.used_as, n.ret))}
       [] o.kind = "call-result"                      -> {Verdict(InitOK(n.used_as, n.ret))}
       [] o.kind \in {"return", "return-method"}      -> {Verdict(ReturnOK(n.declared, n.actual))}
       [] o.kind \in {"init", "field-init"}           -> {Verdict(InitOK(n.declared, n.actual))}
@@ -26,6 +27,7 @@ Rule(o) ==
                                                      -> {Verdict(WriteOK(n.defined, n.mutable, n.recv_mutable))}
       [] o.kind \in {"raises", "raises-nested", "raises-after-handle", "raises-in-arm"}
                                                      -> {Verdict(RaisesOK(n.raised, AsSet(n.declared), AsSet(n.handled)))}
+      [] o.kind = "raises-multi"                     -> {Verdict(RaisesAllOK(n.raised_all, AsSet(n.declared), AsSet(n.handled)))}
       [] o.kind = "raises-declare"                   -> {Verdict(DeclarableOK(n.declared_class))}
       [] o.prop = "C09" /\ n.pattern = "shadow-new-type-old" -> {Verdict(InitOK("Int", "Str"))}   \* the new binding is a Str
       [] o.prop = "C09"                              -> Verdicts(o.prog)          \* the analysis of MambaScope on the program itself
